@@ -127,7 +127,7 @@ def main():
                      "kind_free_text": "Rust crate linking the real suiron library: reference model, generators, oracles; sharded by ./check (Python supervisor with crash/hang isolation)"}],
         "checks": checks,
         "not_applicable": na,
-        "notes": "All checks are runtime monitors over executions of the real library built from /repo's working tree. Exit 0 = held on everything explored, 1 = VIOLATION line(s), 2 = the check could not produce evidence (build/harness problem), never a verdict. Known findings: known_findings.json.",
+        "notes": "All checks are runtime monitors over executions of the real library built from /repo's working tree. Exit 0 = held on everything explored, 1 = VIOLATION line(s), 2 = the check could not produce evidence (build/harness problem), never a verdict. Known findings and repaired defects: known_findings.json (two open C18 findings are printed as KNOWN-FINDING lines). Seeded changes used to test the checks: seeded/<id>-A..D (patch.diff, demo.rs, notes.md, meta.json); re-introduced repaired defects: mutants/revert_<commit>. DESIGN.md sections 12-16 describe what was built, every report on the unchanged tree and its classification, and which checks catch which changes.",
     }
     with open(os.path.join(ROOT, "MANIFEST.json"), "w") as f:
         json.dump(m, f, indent=1)
